@@ -106,6 +106,9 @@ func ScopeMiddleware(provider godi.Provider, opts ...Option) gin.HandlerFunc {
 		scope, err := provider.CreateScope(c.Request.Context())
 		if err != nil {
 			cfg.ErrorHandler(c, err)
+			// The handler must not run without a scope, whether or not the
+			// configured error handler aborts the context itself
+			c.Abort()
 			return
 		}
 
@@ -122,6 +125,7 @@ func ScopeMiddleware(provider godi.Provider, opts ...Option) gin.HandlerFunc {
 		for _, mw := range cfg.Middlewares {
 			if err := mw(scope, c); err != nil {
 				cfg.ErrorHandler(c, err)
+				c.Abort()
 				return
 			}
 		}
